@@ -1,7 +1,7 @@
 #!/usr/bin/env python3
 """seedrun.py <PID> <worktree> <name> [check-args...]
 Confirms a seeded change (demo fails with it, passes without it, package tests pass with it),
-stores it under /verif/seeded/<name>/, applies it to /repo, runs ./check <PID> quick, undoes it."""
+stores it under /verif/seeded/<name>/, runs ./check <PID> quick with VERIF_REPO=<worktree>."""
 import sys, os, subprocess, json, shutil, glob, re
 pid, wt, name = sys.argv[1], sys.argv[2], sys.argv[3]
 extra = sys.argv[4:]
@@ -35,12 +35,10 @@ open(os.path.join(d, "patch.diff"), "w").write(diff)
 shutil.copy(os.path.join(wt, demo), os.path.join(d, os.path.basename(demo) + ".txt"))
 meta_txt = open(os.path.join(wt, "seed_meta.txt")).read() if os.path.exists(os.path.join(wt, "seed_meta.txt")) else ""
 # 4. run our check against the change
-subprocess.run("git -C /repo apply %s" % os.path.join(d, "patch.diff"), shell=True, check=True)
-try:
-    p = subprocess.run(["./check", pid, "quick"] + extra, cwd="/verif", stdout=subprocess.PIPE, stderr=subprocess.STDOUT, text=True, timeout=3000)
-    crc, cout = p.returncode, p.stdout
-finally:
-    subprocess.run("git -C /repo checkout -- .", shell=True, check=True)
+# (the worktree holds the change: the check is pointed at it, /repo stays untouched)
+tier = os.environ.get("SEED_TIER", "quick")
+p = subprocess.run(["./check", pid, tier] + extra, cwd="/verif", env=dict(os.environ, VERIF_REPO=wt), stdout=subprocess.PIPE, stderr=subprocess.STDOUT, text=True, timeout=6000)
+crc, cout = p.returncode, p.stdout
 viol = re.findall(r"VIOLATION property=\S+ replay=\S+\n\s+entry=(\S+) label=(\S+)", cout)
 print("check rc=%d violations=%s" % (crc, sorted(set(viol))[:6]))
 print(cout[-1500:])
